@@ -186,7 +186,7 @@ def rule_duplicated_paths(ctx, rep, rid: str) -> None:
                         chain.append(m)
     if not chain:
         raise AnalysisError("continuation after a parenthesised primary not found")
-    txt = " ".join(" ".join(_body_texts(m)) for m in chain)
+    txt = " ".join(" ".join(_body_texts(m)) for m in _continuation_closure(t, prim.cls, chain))
     order_ok = True
     names = [m.name for m in chain]
     if any("postfix" in nm for nm in names) and cont.name in names:
@@ -599,3 +599,81 @@ def rule_unary_before_exponent_rejected(ctx, rep, rid: str) -> None:
     else:
         u = next((f for f in ctx.tree.funcs if f.module is par and "unary" in f.name.lower()), None)
         rep.bad(rid, "unary-before-exponent", "the parser builds a unary expression and goes on to consume ** without a test for that combination: `-2 ** 2` is accepted (as (-2) ** 2) where ECMAScript demands parentheses", u.loc if u is not None else f"{par.rel}:1")
+
+
+def _continuation_closure(t, cls, chain):
+    """chain plus the methods its members hand their running operand to (`left = self.m(left, ..)`), transitively."""
+    out = list(chain)
+    q = list(chain)
+    while q:
+        m = q.pop()
+        for x in m.own_nodes():
+            if isinstance(x, ast.Assign) and isinstance(x.value, ast.Call) and isinstance(x.value.func, ast.Attribute) and norm(x.value.func.value) == "self" and x.value.args and norm(x.value.args[0]) == norm(x.targets[0]):
+                h = t.find_method(cls, x.value.func.attr)
+                if h is not None and all(h is not o for o in out):
+                    out.append(h)
+                    q.append(h)
+    return out
+
+
+def rule_nested_array_element_continues(ctx, rep, rid: str) -> None:
+    """The parser reads `[[[..` without recursion: it counts the brackets and builds the arrays from the inside out.  When
+    an inner array is closed and becomes part of the enclosing one, it is only the START of that element: `[[1][0]]`,
+    `[[].length]`, `[[] + 1]`, `[[1] ? 2 : 3]` have one element each.  The operand therefore has to be continued at
+    the postfix, binary, conditional and assignment levels (not the comma level: commas separate elements) before it
+    is appended."""
+    rep.rule(rid, "in the iterative parser of nested array literals, an inner array that is closed inside an enclosing one is continued as an expression (member access/calls, binary operators, conditional, assignment) before it is stored as an element; the array is never appended as it is", floor=1)
+    t = ctx.tree
+    f = t.method("Parser", "_parse_nested_arrays") if any(m.name == "_parse_nested_arrays" for m in t.class_named("Parser").methods.values()) else None
+    if f is None:
+        rep.ok(rid, "no-iterative-array-parser", {"note": "array literals are parsed by the general expression parser"})
+        return
+    # arrays built here: names assigned ArrayExpression(..)
+    built = {a.targets[0].id for a in f.own_nodes() if isinstance(a, ast.Assign) and len(a.targets) == 1 and isinstance(a.targets[0], ast.Name) and isinstance(a.value, ast.Call) and norm(a.value.func) == "ArrayExpression"}
+    if not built:
+        raise AnalysisError(f"{rid}: _parse_nested_arrays builds no ArrayExpression")
+    n = 0
+    for c in f.own_nodes():
+        # <stack>[..].append(X) where X is a built array, or comes from one through continuation calls
+        if not (isinstance(c, ast.Call) and isinstance(c.func, ast.Attribute) and c.func.attr == "append" and c.args):
+            continue
+        x = c.args[0]
+        if isinstance(x, ast.Name) and x.id in built:
+            n += 1
+            rep.bad(rid, f"_parse_nested_arrays:append({x.id})@raw", f"Parser._parse_nested_arrays stores the inner array `{x.id}` as an element of the enclosing array as soon as its `]` is read (line {c.lineno}): what follows it is not looked at as part of the same element, so `[[1][0]]` becomes [[1], [0]], `[[] + 1]` becomes [[], 1] and `[[].length]` is a syntax error", f"{f.module.rel}:{c.lineno}")
+            continue
+        src = x
+        if isinstance(x, ast.Name):
+            vals = [a.value for a in f.own_nodes() if isinstance(a, ast.Assign) and len(a.targets) == 1 and norm(a.targets[0]) == x.id]
+            vals = [v for v in vals if any(isinstance(y, ast.Name) and y.id in built for y in ast.walk(v))]
+            if not vals:
+                continue
+            src = vals[0]
+        if not any(isinstance(y, ast.Name) and y.id in built for y in ast.walk(src)):
+            continue
+        n += 1
+        chain = []
+        for y in ast.walk(src):
+            if isinstance(y, ast.Call) and isinstance(y.func, ast.Attribute) and norm(y.func.value) == "self":
+                m = t.find_method(f.cls, y.func.attr)
+                if m is not None:
+                    chain.append(m)
+        txt = " ".join(" ".join(_body_texts(m)) for m in _continuation_closure(t, f.cls, chain))
+        levels = {
+            "postfix": ("_parse_postfix" in txt or "TokenType.DOT" in txt),
+            "binary": "_continue_binary_expression" in txt or "_get_binary_operator" in txt,
+            "conditional": "TokenType.QUESTION" in txt,
+            "assignment": "TokenType.ASSIGN" in txt,
+        }
+        for lvl, present in levels.items():
+            key = f"_parse_nested_arrays:inner-array:{lvl}"
+            if present:
+                rep.ok(rid, key)
+            else:
+                rep.bad(rid, key, f"after the `]` of an inner array Parser._parse_nested_arrays does not continue the element at the {lvl} level ({', '.join(m.name for m in chain) or 'no continuation'}): an element that STARTS with an array literal is cut short there", f"{f.module.rel}:{c.lineno}")
+        if "TokenType.COMMA" in " ".join(" ".join(_body_texts(m)) for m in _continuation_closure(t, f.cls, chain)) and any("SequenceExpression" in " ".join(_body_texts(m)) for m in _continuation_closure(t, f.cls, chain)):
+            rep.bad(rid, "_parse_nested_arrays:inner-array:comma", "the continuation of an inner array also applies the comma operator: `[[1], 2]` would be one element (the sequence [1], 2) instead of two", f"{f.module.rel}:{c.lineno}")
+        else:
+            rep.ok(rid, "_parse_nested_arrays:inner-array:no-comma-operator")
+    if n == 0:
+        raise AnalysisError(f"{rid}: no place where an inner array becomes an element of the enclosing one was found")
